@@ -94,6 +94,45 @@ def check(rep, tier, seed):
             rep.fail(kind="cli-vs-model", cls="create-project-cli:" + why.split()[0], case=mc[:300], argv=["sfs"] + job[0], stdin=job[1].decode(),
                      observed={"rc": rc, "stdout": so.decode(errors="replace")[:400], "stderr": stderr[-400:]},
                      expected=exp[:600], detail="sfs create with projection vs the proved model: " + why)
+    # cohorts of hundreds of samples with mid-range targets (where the binomials overflow f64 and the kernel switches to
+    # log-space): the exact Coq model is too slow there (thousands of 300-digit binomials per record), so the expected
+    # spectrum is computed here from the property's own formula with exact integer binomials (an oracle, not the model)
+    from math import comb
+    big_jobs, big_meta = [], []
+    for k in range(2 if tier == "quick" else 8):
+        n = rng.randrange(520, 640)
+        cols = ["s%d" % i for i in range(n)]
+        recs = []
+        for _ in range(4):
+            miss = rng.choice([0.0, 0.02, 0.3])
+            recs.append([("./." if rng.random() < miss else rng.choice(["0/0", "0/1", "1/1", "0|1"])) for _ in cols])
+        m = rng.choice([n, n + 1, 2 * n - 40, n // 2 * 2 + 1])
+        big_jobs.append((["create", "--precision", "9", "--project-shape", str(m + 1)], render_vcf(cols, recs)))
+        big_meta.append((n, m, recs))
+    for job, (rc, so, se), (n, m, recs) in zip(big_jobs, run_cli_many(big_jobs, timeout=600), big_meta):
+        rep.count("create-project-large-cohort", "%d samples -> %d chromosomes" % (n, m), True)
+        expect = [Fraction(0)] * (m + 1)
+        for r in recs:
+            called = [g for g in r if "." not in g]
+            t = 2 * len(called)
+            a = sum(int(x) for g in called for x in g.replace("|", "/").split("/"))
+            if t >= m:
+                den = comb(t, m)
+                for kk in range(m + 1):
+                    expect[kk] += Fraction(comb(a, kk) * comb(t - a, m - kk), den)
+        parsed = parse_text_spectrum(so)
+        ok = rc == 0 and parsed is not None and parsed[0] == [m + 1] and len(parsed[1]) == m + 1
+        if ok:
+            for tok_, x in zip(parsed[1], expect):
+                v = frac_to_dec(tok_)
+                if isinstance(v, str) or abs(v - x) > Fraction(1, 2 * 10**9) + Fraction(4, 10**8):
+                    ok = False
+                    break
+        if not ok:
+            rep.fail(kind="property-oracle", cls="create-project:large-cohort", case="%d samples, 4 records, --project-shape %d" % (n, m + 1),
+                     argv=["sfs"] + job[0], stdin=job[1].decode()[:200000], observed={"rc": rc, "stdout": so.decode(errors="replace")[:300]},
+                     expected="sum over covered records of Hypergeom(k; t, a, %d), e.g. first entries %s" % (m, [float(x) for x in expect[:3]]),
+                     detail="create --project on a cohort of hundreds of samples differs from the hypergeometric formula (exact integer oracle) by more than 4e-8")
     # -p i  ==  --project-shape 2i+1 : identical bytes
     jj = []
     for k in range(40 if tier == "quick" else 300):
